@@ -25,7 +25,7 @@ Theorem C11_wait_after_stop : forall v env s,
   (done (progs v env) s TW = true ->
    match v with
    | VSleep => m_exc (tw s) = true
-   | VGetSig | VGetSigTimed => m_exc (tw s) = true \/ m_sig (tw s) = true
+   | VGetSig | VGetSigTimed | VGetSigReader | VGetSigTimedReader => m_exc (tw s) = true \/ m_sig (tw s) = true
    | VLoop => m_fin (tw s) = true
    end).
 Proof.
@@ -62,12 +62,17 @@ Print Assumptions C11_locks_released.
 
 (* release needs neither the passage of time nor a signal: whenever the task thread and the
    stopper both have no enabled step, both have finished (with the signal thread absent) *)
+Definition has_reader (v : variant) : bool :=
+  match v with VGetSigReader | VGetSigTimedReader => true | _ => false end.
+
 Theorem C11_progress_without_time : forall v s,
+  has_reader v = false ->
   Reachable v false s -> core_succ (progs v false) s = [] ->
   done (progs v false) s TW = true /\ done (progs v false) s TS = true.
 Proof.
-  intros v s R E. pose proof (progress v false s R) as H. unfold inv_progress in H.
-  rewrite E in H. simpl in H. rewrite orb_false_r in H. apply andb_true_iff in H. exact H.
+  intros v s NR R E. pose proof (progress v false s R) as H. unfold inv_progress in H.
+  rewrite E in H. destruct v; try discriminate NR; simpl in H;
+    rewrite orb_false_r in H; apply andb_true_iff in H; exact H.
 Qed.
 Print Assumptions C11_progress_without_time.
 
@@ -80,7 +85,8 @@ Theorem C11_zero_virtual_time : forall v env s n,
 Proof. exact core_paths_bounded. Qed.
 Print Assumptions C11_zero_virtual_time.
 
-(* with the signal thread present the system as a whole is still never stuck *)
+(* with the signal thread (or a second reader blocked on the same receiver: variants VGetSigReader,
+   VGetSigTimedReader) present the system as a whole is still never stuck *)
 Theorem C11_no_deadlock : forall v env s, Reachable v env s -> inv_progress v env s = true.
 Proof. exact progress. Qed.
 Print Assumptions C11_no_deadlock.
